@@ -660,6 +660,7 @@ def extract(ctx):
 
     # ---- glom_cli
     cli_shape = []
+    debug_body = []
     g = funcs.get('glom_cli')
     if g is None:
         P.add('glom_cli not found')
@@ -669,6 +670,7 @@ def extract(ctx):
                 continue
             if isinstance(st, ast.If) and U(st.test) == 'debug or inspect':
                 cli_shape.append('debug-inspect')
+                debug_body = [U(x) for x in st.body] + (['else: ' + U(x) for x in st.orelse])
             elif isinstance(st, ast.Try):
                 ok = ([U(x) for x in st.body] == ['result = glom.glom(target, spec)'] and len(st.handlers) == 1
                       and ctx['exc_names'](st.handlers[0].type) == ['GlomError'])
@@ -748,6 +750,7 @@ def extract(ctx):
         ('cliStdinReadCatch', LS, read_catch['stdin']),
         ('cliMiddlewares', LS, middlewares),
         ('cliShape', LS, cli_shape),
+        ('cliDebugBody', LS, debug_body),
         ('cliMainShape', S, main_shape),
         ('cliMwSteps', LS, mw_steps),
         # what is read is what is loaded: anything done to a text between its read and its loader / parser
